@@ -103,6 +103,8 @@ Fixpoint p_compare (tb : list intent) (st : pstate) (rs : list creq) (obs : list
   | _, _ => false
   end.
 Definition c06p_case := (list intent * list creq * list (list oev) * N)%type.
+(* typed builders: the generated files apply these instead of writing bare tuples (elaborates several times faster) *)
+Definition PC (tb : list intent) (rs : list creq) (obs : list (list oev)) (ab : N) : c06p_case := (tb, rs, obs, ab).
 Definition c06p_ok (c : c06p_case) : bool :=
   let '(tb, rs, obs, abnormal) := c in (abnormal =? 0) && p_compare tb p_init rs obs.
 
@@ -119,6 +121,7 @@ Fixpoint e_compare (tb : list intent) (st : pstate * tstate) (rs : list cereq) (
   | _, _ => false
   end.
 Definition c06e_case := (list intent * list cereq * list (list oev) * N)%type.
+Definition EC (tb : list intent) (rs : list cereq) (obs : list (list oev)) (ab : N) : c06e_case := (tb, rs, obs, ab).
 Definition c06e_ok (c : c06e_case) : bool :=
   let '(tb, rs, obs, abnormal) := c in (abnormal =? 0) && e_compare tb (p_init, t_init) rs obs.
 
@@ -139,5 +142,6 @@ Fixpoint t_compare (tb : list intent) (ts : tstate) (ms : list cmsg) (obs : list
   | _, _ => false
   end.
 Definition c06t_case := (list intent * list cmsg * list (list oev) * N)%type.
+Definition MC (tb : list intent) (ms : list cmsg) (obs : list (list oev)) (ab : N) : c06t_case := (tb, ms, obs, ab).
 Definition c06t_ok (c : c06t_case) : bool :=
   let '(tb, ms, obs, abnormal) := c in (abnormal =? 0) && t_compare tb t_init ms obs.
